@@ -26,6 +26,7 @@ def main(tier):
                            "acos, release-active arity checks of per-section tables, agreement of sibling models on their guards")
     rep.explanation = ("Termination: every loop on the query path has a recognised bounded shape and the three call-graph cycles "
                        "match the frozen recursion table; every throw is of a std::exception type; guards against out-of-bounds table "
-                       "reads and against NaN from acos have the shape that makes them effective; sibling models agree on their guards. "
-                       "Decides these structural facts only.")
+                       "reads and against NaN from acos have the shape that makes them effective; sibling models agree on their guards; "
+                       "denominators that vanish at the degenerate locations the property lists are excluded by a controlling condition; "
+                       "indexed stores into member vectors are covered by a size fact. Decides these structural facts only.")
     return rep.finish()
